@@ -48,7 +48,7 @@ def walk(rng, story, n_ops, variant="main", weights=None, per_call_s=5.0):
             elif k == "redo":
                 op = {"op": "redo"}
             elif k == "goto":
-                t = rng.choice(names + ["Nowhere"])
+                t = rng.choice([n for n in names if n != "Start"] + ["Nowhere"])
                 ps = story["passages"].get(t, {}).get("params", [])
                 spec = t
                 if ps and rng.random() < 0.8:
@@ -136,3 +136,17 @@ if __name__ == "__main__":
             print(json.dumps(r["case"]["ops"]))
         if r["verdict"] == "unmodelled" and shown < 3:
             print("UNMODELLED", r["id"], r["detail"])
+
+
+def run_fixed(source, ops, variant="main", case_id="fixed"):
+    """A fixed case (replay / witness): compile `source` with the real compiler, run `ops` on the real engine."""
+    case = {"id": case_id, "source": source, "variant": variant, "stats": {}}
+    try:
+        story = compile_source(source)
+    except Exception as e:  # noqa
+        case["compile_error"] = f"{type(e).__name__}: {str(e)[:200]}"
+        return case
+    case["story"] = story
+    case["ops"] = ops
+    case["real"] = real_play.play(story, ops, variant)
+    return case
